@@ -61,6 +61,12 @@ CHECKS = {
    note="Trusted: TLC; the transcription is bound by comparing every response field. 'Honest peers meet' is decided at the level of the instructions (timing and candidate sets), the UDP exchange itself is not run; NatHoleTimeout shortened to 2 s through the package variable.",
    technique="TLA+ spec NatHoleAnalysis model-checked with TLC + trace validation of real controller exchanges (Trace_NatHole, Trace_FrpsVisitors)",
    design="4 (C20), 3.6"),
+ "C15": dict(
+   level="model_checking",
+   text="FrpsPlugins defines the chain semantics twice: as the fold the code performs and declaratively (proceed iff every registered plugin accepted; each consulted plugin sees the last edit before it; nothing is consulted after a refusal or when not registered); TLC enumerates all 22.7k chains of up to 3 plugins x 7 outcomes x operation subsets and checks the two agree; the real plugin.Manager with real HTTP plugins is run on every chain (stub servers programmed per case, incl. HTTP 500, connection reset, malformed JSON, empty body) for all 5 operations, and a real frps with one plugin per operation is driven at each call site with every outcome and for close notifications; TLC compares proceed/refuse, the consultation log, the content the server finally acts on, call-site effects and the notified set with the specification (Trace_FrpsPlugins).",
+   note="Trusted: TLC, stub plugin servers' logs. Plain HTTP plugins on loopback; new-user-connection hook on the direct tcp path.",
+   technique="TLA+ spec FrpsPlugins model-checked with TLC (all chains) + validation of real plugin manager / frps call-site executions (Trace_FrpsPlugins)",
+   design="4 (C15), 3.7"),
 }
 
 hooks_commits = subprocess.run("git -C /repo log --format=%h --grep='^verif:' --reverse", shell=True, capture_output=True, text=True).stdout.split()
